@@ -1148,11 +1148,11 @@ fn gen_surgery_gpos(rng: &mut Rng, info: &FontInfo) -> Option<Surgery> {
 /// run sees it (tables installed, text generation focused on the glyphs morx is keyed on).
 fn gen_install(rng: &mut Rng, info: &FontInfo, prop: &str) -> Option<(FontInfo, Vec<Surgery>)> {
     // percentages: morx, bitmaps, vertical
-    let (p_morx, p_kern, p_bitmap, p_vert) = match prop {
-        "C02" => (14, 8, 0, 10),
-        "C03" => (8, 3, 8, 8),
-        "C09" => (0, 0, 0, 6),
-        _ => (7, 4, 8, 6),
+    let (p_morx, p_kern, p_bitmap, p_vert, p_compact) = match prop {
+        "C02" => (14, 8, 0, 10, 3),
+        "C03" => (8, 3, 8, 8, 4),
+        "C09" => (0, 0, 0, 6, 22),
+        _ => (7, 4, 8, 6, 6),
     };
     let mut surgeries = Vec::new();
     let mut focus: Option<Vec<u32>> = None;
@@ -1208,6 +1208,16 @@ fn gen_install(rng: &mut Rng, info: &FontInfo, prop: &str) -> Option<(FontInfo, 
                 extended: rng.pct(30),
             });
         }
+    }
+    if rng.pct(p_compact) && info.has("hhea") && info.has("hmtx") && info.num_glyphs >= 2 {
+        let n = info.num_glyphs;
+        surgeries.push(Surgery::CompactHmtx {
+            num_h_metrics: match rng.below(4) {
+                0 => 1,
+                1 => n - 1,
+                _ => 1 + rng.below(u64::from(n - 1)) as u16,
+            },
+        });
     }
     if rng.pct(p_vert) && !info.has("vhea") && info.has("hhea") && info.num_glyphs >= 1 {
         let n = info.num_glyphs;
